@@ -5,7 +5,7 @@
 ID=$1; shift
 OUT=/tmp/seed/out/$ID; WT=/tmp/seed/$ID
 export CARGO_TARGET_DIR=/tmp/seed/target-$ID CARGO_NET_OFFLINE=true
-cd $WT && git checkout -q -- . && git clean -fdq
+cd $WT && git checkout -q -- . && git clean -fdq && git checkout -q --detach $(git -C /repo rev-parse HEAD)
 echo "== demo WITHOUT patch"; (bash $OUT/demo/run.sh > $OUT/verify_demo_without.log 2>&1); echo "exit=$?"
 git -C $WT checkout -q -- . ; git -C $WT clean -fdq
 echo "== apply patch"; git -C $WT apply $OUT/patch.diff || { echo "PATCH DOES NOT APPLY"; exit 3; }
